@@ -165,6 +165,7 @@ add("F65", ["C16"], "C16.invented-names|binder|feed_id{}", "`fn dsp(){ let feed_
 fixed("F66", "C16", "2dc402d", "C16.lookahead-nesting|depth|Parser::<'a>::is_tuple_expr", "`let r = ({a = 1.0, b = 2.0})  r.a + r.b` and `let f = (|x, y| x + y)`: is_tuple_expr looked for a comma at parenthesis depth 0 and counted only parentheses, so the comma of the record / of the lambda parameters made the parenthesised expression a one-element tuple; mirgen panicked (`expected record type for field access`, `non function type`); findings/repro/F66_*.mmm")
 fixed("F66", "C16", "2dc402d", "C16.lookahead-nesting|depth|Parser::<'a>::parse_type_tuple_or_paren::{closure#0}", "same scan for types: `(x: ({a:float, b:float}))`")
 fixed("F67", "C16", "3dc550a", "C16.block-scope|block|MIR-generator", "`let x = 1.0  let y = { let x = 2.0  x }  x + y` gave 4.0 on both back ends (3.0 with the inner binder renamed to z): the type checker opens a scope for a block, the MIR generator evaluated the body in the enclosing environment, so the inner `let` replaced the outer binding for the rest of the function (findings/repro/F67_*.mmm)")
+fixed("F68", "C17", "aef7ba1", "C17.routes|final-target|convert_qualified_var", "`mod internal { fn secret(){ 42.0 } }  mod api { pub use internal::secret }  fn dsp(){ api::secret() }` compiled and returned 42.0: the qualified route checked the visibility of `api$secret` (public by construction of the re-export) and then handed out `internal$secret` without checking it (findings/repro/F68_*.mmm)")
 fixed("F64", "C16", "cfb0ebe", "C16.invented-names|binder|record_update_temp", "`let record_update_temp = 7.0  let q = {r <- a = record_update_temp}` failed to type-check (the desugared record update binds a temporary of that name, and the type checker special-cases the name): the temporary is now called `record_update$temp`, which no program can spell (findings/repro/F64_*.mmm)")
 
 
